@@ -1,7 +1,9 @@
 (* C12 — executable models of the timeout / cancellation runners, Parallelise and the cancel-function store.
-   Mirrors utils/parallelisation/parallelisation.go (Parallelise :30-62, RunActionWithTimeout :148-170 AFTER the fix
-   "stop channel of capacity 1", RunActionWithTimeoutAndContext :172-178, RunActionWithTimeoutAndCancelStore :182-216)
-   and utils/parallelisation/cancel_functions.go (:14-37).  Definitions only; proofs are in Proofs*.v.
+   Mirrors utils/parallelisation/parallelisation.go (Parallelise, RunActionWithTimeout, RunActionWithTimeoutAndContext,
+   RunActionWithTimeoutAndCancelStore) and utils/parallelisation/cancel_functions.go.  Definitions only; proofs are in
+   Proofs*.v.  The models are PARAMETERISED by a record [f : facts] (GU.C12.Facts): channel capacities, the statements of
+   every select branch, what is registered / deferred, the lock mode of Register and whether it copies its arguments.
+   GU.C12.Gen.gen_facts is generated from the source on every run; Props.v states the theorems for [gen_facts].
 
    All four are small-step interleaving systems in the sense of GU.C12.Conc: [step : state -> label -> option state],
    one label = one atomic action of one goroutine or of the environment (timer, parent context, the ACTION — which is
@@ -10,7 +12,7 @@
    completion label with the timer label". *)
 From Coq Require Import List ZArith Bool Arith Permutation.
 Import ListNotations.
-From GU Require Import C12.Conc C12.MC.
+From GU Require Import C12.Conc C12.MC C12.Facts C12.Gen.
 
 (* ===================================================================================================== *)
 (** * Common vocabulary *)
@@ -39,59 +41,71 @@ Definition own_eqb a b :=
 Definition apc_eqb a b := match a, b with ARun, ARun | ARet, ARet | ASent, ASent => true | _, _ => false end.
 
 (* ===================================================================================================== *)
-(** * RunActionWithTimeout (parallelisation.go:148-170) *)
+(** * RunActionWithTimeout (parallelisation.go, parameterised by the generated facts) *)
 
-(* runner program counter:  select (:159) / `stop <- true` (:163) / `<-channel` (:167) / returned *)
-Inductive tpc := TSel | TStop | TWait | TDone (r : res).
+Definition kres (k : ekind) : res := match k with KTimeout => RTimeout | KCancelled => RCancelled end.
+
+(* runner program counter: at the select / executing the statements of the chosen branch / `<-channel` / returned *)
+Inductive tpc := TSel | TProg (l : list ract) | TWait | TDone (r : res).
 
 Record tstate := mkT {
   t_pc : tpc;
-  t_a : apc;              (* the action goroutine (:155-157) *)
+  t_a : apc;              (* the action goroutine  go func(...) { channel <- action(stop) } *)
   t_saw : bool;           (* the action has received from the stop channel *)
-  t_chan : bool;          (* `channel` (capacity 1) holds the action's result *)
+  t_chan : bool;          (* `channel` holds the action's result *)
   t_fired : bool;         (* time.After(timeout) has fired *)
-  t_stop : bool;          (* the stop channel's buffer holds the signal (only with capacity 1) *)
-  t_sent : bool           (* ghost: the runner has posted / handed over the stop signal *)
+  t_stop : bool;          (* the stop channel's buffer holds the signal (only with capacity >= 1) *)
+  t_sent : bool;          (* ghost: the runner has posted / handed over the stop signal *)
+  t_completed : bool;     (* completed (atomic bool) *)
+  t_err : res             (* the named result err *)
 }.
 
-Inductive tlabel := LTimer | LRecv | LTimeout | LStop | LWait | LSee | LRet | LSend.
-Definition tlabels := [LTimer; LRecv; LTimeout; LStop; LWait; LSee; LRet; LSend].
+Inductive tlabel := LTimer | LRecv | LTimeout | LRun | LWait | LSee | LRet | LSend.
+Definition tlabels := [LTimer; LRecv; LTimeout; LRun; LWait; LSee; LRet; LSend].
 
-Definition t_init : tstate := mkT TSel ARun false false false false false.
+Definition t_init : tstate := mkT TSel ARun false false false false false false RNil.
 
 Definition t_is_done (s : tstate) : bool := match t_pc s with TDone _ => true | _ => false end.
 
-(* [buffered] = the stop channel has capacity 1 (the code after the fix); false = `make(chan bool)` (before). *)
-Definition t_step (buffered : bool) (c : acfg) (s : tstate) (l : tlabel) : option tstate :=
-  let '(mkT pc a saw ch fired stop sent) := s in
+Definition t_step (f : facts) (c : acfg) (s : tstate) (l : tlabel) : option tstate :=
+  let '(mkT pc a saw ch fired stop sent comp err) := s in
+  let buffered := 1 <=? f_rat_stop_cap f in
   match l with
   | LTimer =>   (* the runtime timer of time.After fires *)
       if negb fired && negb (t_is_done s) && negb (own_eqb (a_own c) Early)
-      then Some (mkT pc a saw ch true stop sent) else None
-  | LRecv =>    (* select case err = <-channel ; completed.Store(true) ; skip :166-168 ; return err *)
-      match pc with TSel => if ch then Some (mkT (TDone (res_of (a_out c))) a saw false fired stop sent) else None
+      then Some (mkT pc a saw ch true stop sent comp err) else None
+  | LRecv =>    (* select case err = <-channel *)
+      match pc with TSel => if ch then Some (mkT (TProg (f_rat_chan_branch f)) a saw false fired stop sent comp (res_of (a_out c))) else None
                | _ => None end
   | LTimeout => (* select case <-time.After(timeout) *)
-      match pc with TSel => if fired then Some (mkT TStop a saw ch fired stop sent) else None | _ => None end
-  | LStop =>    (* stop <- true  into the buffer (capacity 1: never blocks, there is one send) ; err = ErrTimeout *)
-      match pc with TStop => if buffered then Some (mkT TWait a saw ch fired true true) else None | _ => None end
+      match pc with TSel => if fired then Some (mkT (TProg (f_rat_timer_branch f)) a saw ch fired stop sent comp err) else None | _ => None end
+  | LRun =>     (* the next statement of the chosen branch; after the last one: if !completed.Load() { <-channel }; return *)
+      match pc with
+      | TProg (RSetCompleted :: r) => Some (mkT (TProg r) a saw ch fired stop sent true err)
+      | TProg (RSetErr k :: r) => Some (mkT (TProg r) a saw ch fired stop sent comp (kres k))
+      | TProg (RSendStop :: r) =>   (* into the buffer if there is one with room; unbuffered: only as a rendez-vous (LSee) *)
+          if buffered && negb stop then Some (mkT (TProg r) a saw ch fired true true comp err) else None
+      | TProg [] => if f_rat_waits f && negb comp then Some (mkT TWait a saw ch fired stop sent comp err)
+                    else Some (mkT (TDone err) a saw ch fired stop sent comp err)
+      | _ => None end
   | LSee =>     (* the action receives from stop: from the buffer, or (unbuffered) as a rendez-vous with the runner *)
       match a with
       | ARun => if a_looks c && negb saw then
-                  if buffered then (if stop then Some (mkT pc a true ch fired false sent) else None)
-                  else match pc with TStop => Some (mkT TWait a true ch fired stop true) | _ => None end
+                  if buffered then (if stop then Some (mkT pc a true ch fired false sent comp err) else None)
+                  else match pc with TProg (RSendStop :: r) => Some (mkT (TProg r) a true ch fired stop true comp err) | _ => None end
                 else None
       | _ => None end
   | LRet =>     (* action(stop) returns *)
       match a with
-      | ARun => let late := match pc with TWait => true | TStop => negb buffered | _ => false end in
+      | ARun => let late := match pc with TWait => true | TProg (RSendStop :: _) => negb buffered | _ => false end in
                 if saw || match a_own c with Early | Near => true | Late => late | Never => false end
-                then Some (mkT pc ARet saw ch fired stop sent) else None
+                then Some (mkT pc ARet saw ch fired stop sent comp err) else None
       | _ => None end
-  | LSend =>    (* channel <- result  (capacity 1, only sender: never blocks) *)
-      match a with ARet => Some (mkT pc ASent saw true fired stop sent) | _ => None end
-  | LWait =>    (* if !completed.Load() { <-channel } ; return ErrTimeout *)
-      match pc with TWait => if ch then Some (mkT (TDone RTimeout) a saw false fired stop sent) else None
+  | LSend =>    (* channel <- result  (only sender; needs a buffer of capacity >= 1 not to depend on the receiver) *)
+      match a with ARet => if (1 <=? f_rat_chan_cap f) && negb ch then Some (mkT pc ASent saw true fired stop sent comp err) else None
+                 | _ => None end
+  | LWait =>    (* <-channel ; return *)
+      match pc with TWait => if ch then Some (mkT (TDone err) a saw false fired stop sent comp err) else None
                | _ => None end
   end.
 
@@ -106,8 +120,10 @@ Definition t_G (c : acfg) (s : tstate) (l : tlabel) : bool :=
 (* an action that never returns by itself must at least look at its signal *)
 Definition a_wf (c : acfg) : bool := match a_own c with Never => a_looks c | _ => true end.
 
-Definition t_rank (s : tstate) : nat :=
-  (match t_pc s with TSel => 3 | TStop => 2 | TWait => 1 | TDone _ => 0 end) +
+Definition t_rank (f : facts) (s : tstate) : nat :=
+  (match t_pc s with
+   | TSel => 3 + Nat.max (length (f_rat_chan_branch f)) (length (f_rat_timer_branch f))
+   | TProg l => 2 + length l | TWait => 1 | TDone _ => 0 end) +
   (match t_a s with ARun => 2 | ARet => 1 | ASent => 0 end) +
   (if t_saw s then 0 else 1) + (if t_fired s then 0 else 1).
 
@@ -121,12 +137,13 @@ Definition t_observe (s : tstate) : option tobs :=
   end.
 
 (* ===================================================================================================== *)
-(** * RunActionWithTimeoutAndCancelStore (:182-216) and RunActionWithTimeoutAndContext (:172-178) *)
+(** * RunActionWithTimeoutAndCancelStore and RunActionWithTimeoutAndContext (parameterised by the generated facts) *)
 
 Inductive pst := PLive | PCanc | PDead.          (* context state: live / Canceled / DeadlineExceeded *)
 Definition pst_eqb a b := match a, b with PLive, PLive | PCanc, PCanc | PDead, PDead => true | _, _ => false end.
 Definition kind_of (p : pst) : res := match p with PDead => RTimeout | _ => RCancelled end.  (* ConvertContextError *)
 Definition is_live (p : pst) : bool := pst_eqb p PLive.
+Definition ctx_err (p : pst) : res := if is_live p then RNil else kind_of p.   (* DetermineContextError(ctx) *)
 
 (* events of the environment during the call: the parent context is cancelled / reaches its deadline, or somebody
    else calls store.Cancel() on the store handed to ...AndCancelStore *)
@@ -141,22 +158,15 @@ Record xcfg := mkX {
   x_ev_first : bool        (* scenario class: the event DOES happen, before the deadline and before the action completes by itself *)
 }.
 
-(* runner program counter (line numbers of parallelisation.go) *)
+(* runner program counter *)
 Inductive cpc :=
-  | C0      (* :183 DetermineContextError(ctx) *)
-  | C1      (* :187-188 WithTimeout + Register *)
-  | C2      (* :190-191 WithCancel + Register *)
-  | C3      (* :193 go ... *)
-  | CSel    (* :197 select *)
-  | CE1     (* :199-202 err != nil: actionCancel(); <-cancelCtx.Done() *)
-  | CE2     (* :203-206 err2 := DetermineContextError(timeoutContext) *)
-  | CE3     (* :207-208 timeoutCancel(); return err *)
-  | CT1     (* :210 actionCancel() *)
-  | CT2     (* :211 timeoutCancel() *)
-  | CT3     (* :212 <-cancelCtx.Done() *)
-  | CT4     (* :213 <-channel *)
-  | CT5     (* :214 return DetermineContextError(timeoutContext) *)
-  | CDefer (r : res)   (* deferred timeoutCancel() (:189), and store.Cancel() of ...AndContext (:176) *)
+  | C0      (* the entry check on the parent context, if there is one *)
+  | C1      (* timeoutContext, timeoutCancel := context.WithTimeout(ctx, timeout) (+ registration) *)
+  | C2      (* cancelCtx, actionCancel := context.WithCancel(ctx) (+ registration) *)
+  | C3      (* go func(...) { channel <- action(actionCtx) }(cancelCtx, ...) *)
+  | CSel    (* select *)
+  | CProg (l : list xact)   (* executing the statements of the chosen branch *)
+  | CDefer (r : res)   (* deferred timeoutCancel(), and store.Cancel() of ...AndContext *)
   | CDone (r : res).
 
 (* the other caller of store.Cancel(): idle / holds the read lock with the list seen (timeoutCancel? actionCancel?) / done *)
@@ -171,8 +181,8 @@ Record xstate := mkXS {
   x_parent : pst;
   x_evdone : bool;        (* the parent event has happened *)
   x_tctx : pst;           (* timeoutContext: live / Canceled / DeadlineExceeded (first cause wins) *)
-  x_has_t : bool;         (* timeoutContext exists and timeoutCancel is registered in the store *)
-  x_has_a : bool;         (* cancelCtx exists and actionCancel is registered *)
+  x_has_t : bool;         (* timeoutContext exists *)
+  x_has_a : bool;         (* cancelCtx exists *)
   x_cdone : bool;         (* cancelCtx (the ACTION's context) is done *)
   x_ext : epc;
   x_cret : bool           (* ghost: x_cdone at the instant the runner returned *)
@@ -206,46 +216,50 @@ Definition x_event_over (c : xcfg) (s : xstate) : bool :=
   end.
 (* gate of the class "the event comes first": timer and spontaneous completion wait for it *)
 Definition x_gate (c : xcfg) (s : xstate) : bool := negb (x_ev_first c) || x_event_over c s.
-
 (* ... and, in that class, it happens once the action has been started *)
 Definition x_during (c : xcfg) (s : xstate) : bool :=
   negb (x_ev_first c) || match x_act s with None => false | _ => true end.
 
 Definition cancel_t (p : pst) : pst := if is_live p then PCanc else p.
 
-Definition x_step (c : xcfg) (s : xstate) (l : xlabel) : option xstate :=
+Definition x_step (f : facts) (c : xcfg) (s : xstate) (l : xlabel) : option xstate :=
   let '(mkXS pc act saw ch fired par evd tctx ht ha cd ext cret) := s in
   match l with
   | XRun =>
       match pc with
-      | C0 => if is_live par then Some (mkXS C1 act saw ch fired par evd tctx ht ha cd ext cret)
+      | C0 => if negb (f_x_initial_check f) || is_live par
+              then Some (mkXS C1 act saw ch fired par evd tctx ht ha cd ext cret)
               else Some (mkXS (CDone (kind_of par)) act saw ch fired par evd tctx ht ha cd ext false)
       | C1 => (* a child of an ended parent is born ended, with the parent's error *)
               Some (mkXS C2 act saw ch fired par evd par true ha cd ext cret)
       | C2 => Some (mkXS C3 act saw ch fired par evd tctx ht true (negb (is_live par)) ext cret)
       | C3 => Some (mkXS CSel (Some ARun) saw ch fired par evd tctx ht ha cd ext cret)
       | CSel => None
-      | CE1 => Some (mkXS CE2 act saw ch fired par evd tctx ht ha true ext cret)
-      | CE2 => if is_live tctx then Some (mkXS CE3 act saw ch fired par evd tctx ht ha cd ext cret)
-               else Some (mkXS (CDefer (kind_of tctx)) act saw ch fired par evd tctx ht ha cd ext cret)
-      | CE3 => Some (mkXS (CDefer (res_of (a_out (x_a c)))) act saw ch fired par evd (cancel_t tctx) ht ha cd ext cret)
-      | CT1 => Some (mkXS CT2 act saw ch fired par evd tctx ht ha true ext cret)
-      | CT2 => Some (mkXS CT3 act saw ch fired par evd (cancel_t tctx) ht ha cd ext cret)
-      | CT3 => if cd then Some (mkXS CT4 act saw ch fired par evd tctx ht ha cd ext cret) else None
-      | CT4 => if ch then Some (mkXS CT5 act saw false fired par evd tctx ht ha cd ext cret) else None
-      | CT5 => Some (mkXS (CDefer (kind_of tctx)) act saw ch fired par evd tctx ht ha cd ext cret)
-      | CDefer r => let cd' := if x_store c then cd else true in
-                    Some (mkXS (CDone r) act saw ch fired par evd (cancel_t tctx) ht ha cd' ext cd')
+      | CProg (XACancelAction :: r) => Some (mkXS (CProg r) act saw ch fired par evd tctx ht ha true ext cret)
+      | CProg (XACancelTimeout :: r) => Some (mkXS (CProg r) act saw ch fired par evd (cancel_t tctx) ht ha cd ext cret)
+      | CProg (XAWaitActionDone :: r) => if cd then Some (mkXS (CProg r) act saw ch fired par evd tctx ht ha cd ext cret) else None
+      | CProg (XARecvChan :: r) => if ch then Some (mkXS (CProg r) act saw false fired par evd tctx ht ha cd ext cret) else None
+      | CProg (XARetTimeoutErrIfAny :: r) =>
+          if is_live tctx then Some (mkXS (CProg r) act saw ch fired par evd tctx ht ha cd ext cret)
+          else Some (mkXS (CDefer (kind_of tctx)) act saw ch fired par evd tctx ht ha cd ext cret)
+      | CProg (XARetErr :: _) => Some (mkXS (CDefer (res_of (a_out (x_a c)))) act saw ch fired par evd tctx ht ha cd ext cret)
+      | CProg (XARetTimeoutErr :: _) => Some (mkXS (CDefer (ctx_err tctx)) act saw ch fired par evd tctx ht ha cd ext cret)
+      | CProg [] => None        (* falling off a branch: the translator refuses such a shape *)
+      | CDefer r => (* deferred timeoutCancel(); ...AndContext: deferred store.Cancel() calls what is registered *)
+          let private := negb (x_store c) && f_ctx_defer_store_cancel f in
+          let cd' := cd || (private && f_x_reg_a f) in
+          let tctx' := if f_x_defer_tcancel f || (private && f_x_reg_t f) then cancel_t tctx else tctx in
+          Some (mkXS (CDone r) act saw ch fired par evd tctx' ht ha cd' ext cd')
       | CDone _ => None
       end
   | XSelChan =>
       match pc with
-      | CSel => if ch then Some (mkXS (match a_out (x_a c) with OErr => CE1 | ONil => CE2 end)
+      | CSel => if ch then Some (mkXS (CProg ((match a_out (x_a c) with OErr => f_x_err_branch f | ONil => [] end) ++ f_x_chan_tail f))
                                       act saw false fired par evd tctx ht ha cd ext cret) else None
       | _ => None end
   | XSelTimeout =>
       match pc with
-      | CSel => if is_live tctx then None else Some (mkXS CT1 act saw ch fired par evd tctx ht ha cd ext cret)
+      | CSel => if is_live tctx then None else Some (mkXS (CProg (f_x_timeout_branch f)) act saw ch fired par evd tctx ht ha cd ext cret)
       | _ => None end
   | XTimer =>   (* the deadline of timeoutContext *)
       if ht && negb fired && negb (x_is_done s) && negb (own_eqb (a_own (x_a c)) Early) && x_gate c s
@@ -261,8 +275,9 @@ Definition x_step (c : xcfg) (s : xstate) (l : xlabel) : option xstate :=
   | XExtBegin => (* somebody else: store.Cancel() takes the read lock and sees what is registered *)
       match x_ev c, ext with
       | Some EvExt, EIdle => if negb (x_is_done s) && x_during c s
-                             then Some (mkXS pc act saw ch fired par evd tctx ht ha cd
-                                             (if ht || ha then ECalls ht ha else EDone) cret) else None
+                             then let t := ht && f_x_reg_t f in let a := ha && f_x_reg_a f in
+                                  Some (mkXS pc act saw ch fired par evd tctx ht ha cd
+                                             (if t || a then ECalls t a else EDone) cret) else None
       | _, _ => None end
   | XExtT =>
       match ext with
@@ -281,12 +296,14 @@ Definition x_step (c : xcfg) (s : xstate) (l : xlabel) : option xstate :=
   | XRet =>
       match act with
       | Some ARun =>
-          let late := match pc with CT4 => true | _ => false end in
+          let late := match pc with CProg (XARecvChan :: _) => true | _ => false end in   (* the runner waits for the result *)
           if saw || (match a_own (x_a c) with Early | Near => true | Late => late | Never => false end && x_gate c s)
           then Some (mkXS pc (Some ARet) saw ch fired par evd tctx ht ha cd ext cret) else None
       | _ => None end
   | XSend =>
-      match act with Some ARet => Some (mkXS pc (Some ASent) saw true fired par evd tctx ht ha cd ext cret) | _ => None end
+      match act with Some ARet => if (1 <=? f_x_chan_cap f) && negb ch
+                                  then Some (mkXS pc (Some ASent) saw true fired par evd tctx ht ha cd ext cret) else None
+                   | _ => None end
   end.
 
 Definition x_G (c : xcfg) (s : xstate) (l : xlabel) : bool :=
@@ -300,10 +317,13 @@ Definition x_G (c : xcfg) (s : xstate) (l : xlabel) : bool :=
 Definition x_wf (c : xcfg) : bool :=
   a_wf (x_a c) && match x_ev c with Some EvExt => x_store c | _ => true end.
 
-Definition x_rank (s : xstate) : nat :=
+Definition x_sel_rank (f : facts) : nat :=
+  3 + Nat.max (length (f_x_err_branch f) + length (f_x_chan_tail f)) (length (f_x_timeout_branch f)).
+
+Definition x_rank (f : facts) (s : xstate) : nat :=
   (match x_pc s with
-   | C0 => 19 | C1 => 18 | C2 => 17 | C3 => 16 | CSel => 12 | CE1 => 11 | CE2 => 10 | CE3 => 9
-   | CT1 => 8 | CT2 => 7 | CT3 => 6 | CT4 => 5 | CT5 => 4 | CDefer _ => 1 | CDone _ => 0 end) +
+   | C0 => x_sel_rank f + 6 | C1 => x_sel_rank f + 5 | C2 => x_sel_rank f + 4 | C3 => x_sel_rank f + 3 | CSel => x_sel_rank f
+   | CProg l => 2 + length l | CDefer _ => 1 | CDone _ => 0 end) +
   (match x_act s with None => 0 | Some ARun => 2 | Some ARet => 1 | Some ASent => 0 end) +
   (if x_saw s then 0 else 1) + (if x_fired s then 0 else 1) + (if x_evdone s then 0 else 1) +
   (match x_ext s with EIdle => 3 | ECalls true _ => 2 | ECalls false _ => 1 | EDone => 0 end).
@@ -349,9 +369,9 @@ Fixpoint upd {A} (i : nat) (x : A) (l : list A) : list A :=
 
 Definition wst_eqb a b := match a, b with WInit, WInit | WCalled, WCalled | WSent, WSent => true | _, _ => false end.
 
-(* [outs] = the results of the invocations (environment); capacity of the channel = length outs;
+(* [outs] = the results of the invocations (environment); [cap] = capacity of the channel (= par_cap facts (length outs));
    [keep] = a result type was given (:31 keepReturn) *)
-Definition p_step (keep : bool) (outs : list pres) (s : pstate) (l : plabel) : option pstate :=
+Definition p_step (cap : nat) (keep : bool) (outs : list pres) (s : pstate) (l : plabel) : option pstate :=
   let '(mkP w ch m sl rc) := s in
   match l with
   | PCall i =>     (* :38-40  r.Item, r.err = actionFunc(v.Interface()) *)
@@ -360,7 +380,7 @@ Definition p_step (keep : bool) (outs : list pres) (s : pstate) (l : plabel) : o
       | _ => None end
   | PSend i =>     (* :41  channel <- r   (blocks while the buffer is full) *)
       match nth_error w i, nth_error outs i with
-      | Some WCalled, Some o => if length ch <? length outs
+      | Some WCalled, Some o => if length ch <? cap
                                 then Some (mkP (upd i WSent w) (ch ++ [o]) m (sl ++ [o]) rc) else None
       | _, _ => None end
   | PRecv =>       (* :49-56  r := <-channel; if r.err != nil return; append *)
@@ -446,23 +466,33 @@ Definition s_init (progs : list (list sop)) : sstate :=
   mkS [] false 0 (map (fun p => mkTh p SIdle [] [] []) progs) [] [].
 
 (* one step of goroutine [th] in the shared state; returns the new shared parts and the new thread *)
-Definition th_step (s : sstate) (th : thread) : option (sstate * thread) :=
+Definition th_step (f : facts) (s : sstate) (th : thread) : option (sstate * thread) :=
   let '(mkS fns wr rd ths rdn cs) := s in
   let '(mkTh ops pc must called outs) := th in
   match pc with
   | SIdle =>
       match ops with
       | [] => None
-      | SReg f :: r => Some (s, mkTh r (SRegWant f) must called outs)
+      | SReg fs :: r => Some (s, mkTh r (SRegWant fs) must called outs)
       | SCancel :: r => Some (s, mkTh r SCanWant rdn [] outs)            (* Cancel is called: ghost snapshot *)
       | SLen :: r => Some (s, mkTh r SLenWant must called outs)
-      | SScribble :: r => Some (s, mkTh r SIdle must called ([] :: outs))   (* caller-side writes: the store is not touched *)
+      | SScribble :: r =>   (* caller-side writes: the store is not touched — IF Register copied its arguments; otherwise the
+                               store's slice aliases the caller's and its content is lost (worst case) *)
+          Some (if f_reg_copies f then s else mkS [] wr rd ths rdn cs, mkTh r SIdle must called ([] :: outs))
       end
-  | SRegWant f => if negb wr && (rd =? 0) then Some (mkS fns true rd ths rdn cs, mkTh ops (SRegRead f) must called outs) else None
-  | SRegRead f => Some (s, mkTh ops (SRegWrite f fns) must called outs)
-  | SRegWrite f seen => Some (mkS (seen ++ f) wr rd ths rdn cs, mkTh ops (SRegUnlock f) must called outs)
-  | SRegUnlock f => (* Unlock and return: from here on Register(f) "has completed" *)
-      Some (mkS fns false rd ths (f ++ rdn) cs, mkTh ops SIdle must called ([] :: outs))
+  | SRegWant fs =>      (* the lock taken by RegisterCancelFunction, as generated *)
+      match f_reg_lock f with
+      | LLock => if negb wr && (rd =? 0) then Some (mkS fns true rd ths rdn cs, mkTh ops (SRegRead fs) must called outs) else None
+      | LRLock => if negb wr then Some (mkS fns wr (S rd) ths rdn cs, mkTh ops (SRegRead fs) must called outs) else None
+      | LNone => Some (s, mkTh ops (SRegRead fs) must called outs)
+      end
+  | SRegRead fs => Some (s, mkTh ops (SRegWrite fs fns) must called outs)
+  | SRegWrite fs seen => Some (mkS (seen ++ fs) wr rd ths rdn cs, mkTh ops (SRegUnlock fs) must called outs)
+  | SRegUnlock fs => (* Unlock and return: from here on Register(f) "has completed" *)
+      Some (match f_reg_lock f with
+            | LLock => mkS fns false rd ths (fs ++ rdn) cs
+            | LRLock => mkS fns wr (pred rd) ths (fs ++ rdn) cs
+            | LNone => mkS fns wr rd ths (fs ++ rdn) cs end, mkTh ops SIdle must called ([] :: outs))
   | SCanWant => if negb wr then Some (mkS fns wr (S rd) ths rdn cs, mkTh ops (SCanLoop fns) must called outs) else None
   | SCanLoop (f :: todo) => Some (s, mkTh ops (SCanLoop todo) must (called ++ [f]) outs)
   | SCanLoop [] => Some (mkS fns wr (pred rd) ths rdn ((must, called) :: cs), mkTh ops SIdle [] [] (called :: outs))
@@ -471,9 +501,9 @@ Definition th_step (s : sstate) (th : thread) : option (sstate * thread) :=
   end.
 
 (* label = index of the goroutine that makes its next step *)
-Definition s_step (s : sstate) (i : nat) : option sstate :=
+Definition s_step (f : facts) (s : sstate) (i : nat) : option sstate :=
   match nth_error (s_threads s) i with
-  | Some th => match th_step s th with
+  | Some th => match th_step f s th with
                | Some (s', th') => Some (mkS (s_fns s') (s_writer s') (s_readers s') (upd i th' (s_threads s))
                                              (s_regdone s') (s_cancels s'))
                | None => None end
@@ -481,23 +511,38 @@ Definition s_step (s : sstate) (i : nat) : option sstate :=
   end.
 
 (* a single goroutine running a program to the end (deterministic): used by the sequential correspondence *)
-Fixpoint s_run1 (fuel : nat) (s : sstate) : sstate :=
-  match fuel with 0 => s | S f => match s_step s 0 with Some s' => s_run1 f s' | None => s end end.
+Fixpoint s_run1 (f : facts) (fuel : nat) (s : sstate) : sstate :=
+  match fuel with 0 => s | S k => match s_step f s 0 with Some s' => s_run1 f k s' | None => s end end.
 
 (* ===================================================================================================== *)
 (** * Reachable sets and allowed observations of the runner models (finite: computed) *)
 
+Definition ekind_eqb a b := match a, b with KTimeout, KTimeout | KCancelled, KCancelled => true | _, _ => false end.
+Definition ract_eqb a b :=
+  match a, b with RSetCompleted, RSetCompleted | RSendStop, RSendStop => true | RSetErr k, RSetErr k' => ekind_eqb k k' | _, _ => false end.
+Definition xact_eqb a b :=
+  match a, b with
+  | XACancelAction, XACancelAction | XACancelTimeout, XACancelTimeout | XAWaitActionDone, XAWaitActionDone
+  | XARecvChan, XARecvChan | XARetTimeoutErrIfAny, XARetTimeoutErrIfAny | XARetErr, XARetErr | XARetTimeoutErr, XARetTimeoutErr => true
+  | _, _ => false end.
+Fixpoint list_eqb {A} (e : A -> A -> bool) (a b : list A) : bool :=
+  match a, b with [], [] => true | x :: a', y :: b' => if e x y then list_eqb e a' b' else false | _, _ => false end.
+
+Definition tpc_eqb (a b : tpc) : bool :=
+  match a, b with
+  | TSel, TSel | TWait, TWait => true | TDone r, TDone r' => res_eqb r r' | TProg l, TProg l' => list_eqb ract_eqb l l' | _, _ => false end.
+
 Definition tstate_eqb (a b : tstate) : bool :=   (* nested ifs: vm_compute is strict, && would not short-circuit *)
-  if (match t_pc a, t_pc b with
-      | TSel, TSel | TStop, TStop | TWait, TWait => true | TDone r, TDone r' => res_eqb r r' | _, _ => false end)
+  if tpc_eqb (t_pc a) (t_pc b)
   then if apc_eqb (t_a a) (t_a b) then if Bool.eqb (t_saw a) (t_saw b) then if Bool.eqb (t_chan a) (t_chan b)
-  then if Bool.eqb (t_fired a) (t_fired b) then if Bool.eqb (t_stop a) (t_stop b) then Bool.eqb (t_sent a) (t_sent b)
-  else false else false else false else false else false else false.
+  then if Bool.eqb (t_fired a) (t_fired b) then if Bool.eqb (t_stop a) (t_stop b) then if Bool.eqb (t_sent a) (t_sent b)
+  then if Bool.eqb (t_completed a) (t_completed b) then res_eqb (t_err a) (t_err b)
+  else false else false else false else false else false else false else false else false.
 
 Definition cpc_eqb (a b : cpc) : bool :=
   match a, b with
-  | C0, C0 | C1, C1 | C2, C2 | C3, C3 | CSel, CSel | CE1, CE1 | CE2, CE2 | CE3, CE3
-  | CT1, CT1 | CT2, CT2 | CT3, CT3 | CT4, CT4 | CT5, CT5 => true
+  | C0, C0 | C1, C1 | C2, C2 | C3, C3 | CSel, CSel => true
+  | CProg l, CProg l' => list_eqb xact_eqb l l'
   | CDefer r, CDefer r' | CDone r, CDone r' => res_eqb r r'
   | _, _ => false end.
 
@@ -513,17 +558,17 @@ Definition xstate_eqb (a b : xstate) : bool :=
   else false else false else false else false else false else false else false else false else false else false
   else false else false.
 
-Definition t_R (buffered : bool) (c : acfg) : list tstate := bfs (t_step buffered c) tstate_eqb tlabels 2000 [t_init] [].
-Definition x_R (c : xcfg) : list xstate := bfs (x_step c) xstate_eqb xlabels 20000 [x_init c] [].
+Definition t_R (f : facts) (c : acfg) : list tstate := bfs (t_step f c) tstate_eqb tlabels 2000 [t_init] [].
+Definition x_R (f : facts) (c : xcfg) : list xstate := bfs (x_step f c) xstate_eqb xlabels 20000 [x_init c] [].
 
 Definition quiescentb {state label} (step : state -> label -> option state) (labels : list label) (s : state) : bool :=
   forallb (fun t => negb (enabledb step s t)) labels.
 
 (* observations of all reachable quiescent states (= of all maximal runs, Proofs.t_allowed_complete) *)
-Definition t_allowed (buffered : bool) (c : acfg) : list (option tobs) :=
-  map t_observe (filter (quiescentb (t_step buffered c) tlabels) (t_R buffered c)).
-Definition x_allowed (c : xcfg) : list (option xobs) :=
-  map x_observe (filter (quiescentb (x_step c) xlabels) (x_R c)).
+Definition t_allowed (f : facts) (c : acfg) : list (option tobs) :=
+  map t_observe (filter (quiescentb (t_step f c) tlabels) (t_R f c)).
+Definition x_allowed (f : facts) (c : xcfg) : list (option xobs) :=
+  map x_observe (filter (quiescentb (x_step f c) xlabels) (x_R f c)).
 
 Definition tobs_eqb (a b : tobs) : bool :=
   res_eqb (to_res a) (to_res b) && Bool.eqb (to_saw a) (to_saw b) && Bool.eqb (to_finished a) (to_finished b).
@@ -553,11 +598,11 @@ Definition sortN (l : list nat) : list nat := fold_right insertN [] l.
 
 Definition check_case (k : case) : bool :=
   match k with
-  | CaseT c o => existsb (opt_eqb tobs_eqb o) (t_allowed true c)
-  | CaseX c o => existsb (opt_eqb xobs_eqb o) (x_allowed c)
+  | CaseT c o => existsb (opt_eqb tobs_eqb o) (t_allowed gen_facts c)      (* the models instantiated with the GENERATED facts *)
+  | CaseX c o => existsb (opt_eqb xobs_eqb o) (x_allowed gen_facts c)
   | CaseP keep outs calls r => listnat_eqb calls (map (fun _ => 1) outs) && par_allowedb keep outs r
   | CaseS prog outs =>
-      let s := s_run1 (10 + 6 * length prog + 4 * length prog * length prog) (s_init [prog]) in
+      let s := s_run1 gen_facts (10 + 6 * length prog + 4 * length prog * length prog) (s_init [prog]) in
       match s_threads s with
       | [th] => listlistnat_eqb (map sortN (rev (th_outs th))) outs     (* order of invocation: not compared *)
       | _ => false end
